@@ -425,6 +425,53 @@ public:
         o["line"] = lineOf(cloc);
         o["abstract"] = rd->isAbstract();
         o["inst"] = isa<ClassTemplateSpecializationDecl>(rd);
+        {
+            // what does copying an object of this class do?  user = user-provided copy constructor,
+            // memberwise = implicit / defaulted member-wise copy, deleted = not copyable
+            std::string ck = "memberwise";
+            bool declared = false;
+            for (auto* c : rd->ctors()) {
+                if (c->isCopyConstructor() && !c->isImplicit()) {
+                    declared = true;
+                    ck = c->isDeleted() ? "deleted" : (c->isUserProvided() ? "user" : "memberwise");
+                }
+            }
+            if (!declared) {
+                if (rd->defaultedCopyConstructorIsDeleted() || rd->hasUserDeclaredMoveConstructor() || rd->hasUserDeclaredMoveAssignment()) {
+                    ck = "deleted";
+                }
+                for (auto* c : rd->ctors()) {
+                    if (c->isCopyConstructor() && c->isImplicit() && c->isDeleted()) {
+                        ck = "deleted";
+                    }
+                }
+            }
+            o["copy"] = ck;
+            std::string ak = "memberwise";
+            bool adeclared = false;
+            for (auto* m : rd->methods()) {
+                if (m->isCopyAssignmentOperator() && !m->isImplicit()) {
+                    adeclared = true;
+                    ak = m->isDeleted() ? "deleted" : (m->isUserProvided() ? "user" : "memberwise");
+                }
+            }
+            if (!adeclared) {
+                if (rd->hasUserDeclaredMoveConstructor() || rd->hasUserDeclaredMoveAssignment()) {
+                    ak = "deleted";
+                }
+                for (auto* m : rd->methods()) {
+                    if (m->isCopyAssignmentOperator() && m->isImplicit() && m->isDeleted()) {
+                        ak = "deleted";
+                    }
+                }
+                for (auto* f : rd->fields()) {
+                    if (f->getType().isConstQualified() || f->getType()->isReferenceType()) {
+                        ak = "deleted";
+                    }
+                }
+            }
+            o["copy_assign"] = ak;
+        }
         json::Array bases;
         for (auto& b : rd->bases()) {
             json::Object bo;
